@@ -443,6 +443,8 @@ def rule_attribution(ck: Check, repo: Repo) -> None:
         if not ok:
             r.violation(q, "path not normalised to POSIX form",
                         "globs use '/' separators; the matched path must be PurePath(path).as_posix()", repo.loc(fn))
+    from . import c04
+    c04.selection_table(r, repo)
     fa = repo.func(f"{T}.find_annotations_item")
     calls = find_calls(fa, lambda c, f: f.endswith(".matches"))
     if len(calls) != 1 or ast.unparse(calls[0].args[0]) != "path":
